@@ -2,27 +2,273 @@ import PbVerif.Model.PSpline
 import PbVerif.Lemmas.BSpline
 import PbVerif.Lemmas.Whittaker
 /-! Lemmas for C07. -/
+set_option linter.unusedVariables false
 namespace PbVerif.Lemmas
 open PbVerif.BSpline PbVerif.Whittaker PbVerif.PSpline PbVerif.Banded
 
 /-- all rows of a band table have length n -/
 def RowsLen (a : List (List Rat)) (n : Nat) : Prop := ∀ r ∈ a, r.length = n
 
+theorem ps_shape_of_rowsLen (a : List (List Rat)) (n : Nat) (ha : RowsLen a n) : TblShape a a.length n := by
+  refine ⟨rfl, fun r hr => ?_⟩
+  rw [List.getD_eq_getElem?_getD, List.getElem?_eq_getElem hr]
+  exact ha _ (List.getElem_mem hr)
+
+theorem ps_shape_pad (a : List (List Rat)) (n k : Nat) (ha : RowsLen a n) (hk : a.length ≤ k) :
+    TblShape (padLower a (k - a.length) n) k n := by
+  have h := shape_padLower a (k - a.length) n _ (ps_shape_of_rowsLen a n ha)
+  have e : a.length + (k - a.length) = k := by omega
+  rw [e] at h; exact h
+
 /-- `_add_diagonals` (lower storage) adds the denoted matrices, whichever array has fewer rows -/
 theorem addDiagonalsLower_den (a b : List (List Rat)) (n : Nat) (ha : RowsLen a n) (hb : RowsLen b n) (i j : Nat) (hi : i < n) (hj : j < n) :
-    denLower (addDiagonalsLower a b n) i j = denLower a i j + denLower b i j := by sorry
+    denLower (addDiagonalsLower a b n) i j = denLower a i j + denLower b i j := by
+  rw [denLower_eq, denLower_eq, denLower_eq]
+  show ent (addB (padLower a (max a.length b.length - a.length) n) (padLower b (max a.length b.length - b.length) n)) _ _ = _
+  rw [ent_addB _ _ (max a.length b.length) n _ _ (ps_shape_pad a n _ ha (Nat.le_max_left _ _))
+    (ps_shape_pad b n _ hb (Nat.le_max_right _ _)), ent_padLower, ent_padLower]
+
+theorem ps_foldl_add_eq (l : List Rat) (x : Rat) : l.foldl (· + ·) x = x + l.sum := by
+  induction l generalizing x with
+  | nil => simp
+  | cons h t ih => simp [List.foldl_cons, ih, add_assoc]
+
+theorem ps_sumL_eq_sum (l : List Rat) : sumL l = l.sum := by
+  simp [sumL, ps_foldl_add_eq]
 
 /-- the explicit product: `btbSpec` at band (|i−j|, min) is the dense `(B'WB)[i,j]` -/
 theorem btbSpec_dense (deg : Nat) (rows : List Row) (ws : List Rat) (i j : Nat) :
-    btbSpec deg rows ws (max i j - min i j) (min i j) = btwbAt deg rows ws i j := by sorry
+    btbSpec deg rows ws (max i j - min i j) (min i j) = btwbAt deg rows ws i j := by
+  unfold btbSpec btwbAt
+  rw [ps_sumL_eq_sum]
+  congr 1
+  apply List.map_congr_left
+  rintro ⟨row, w⟩ _
+  show w * row.at deg (min i j + (max i j - min i j)) * row.at deg (min i j) = w * row.at deg i * row.at deg j
+  by_cases h : i ≤ j
+  · have e1 : min i j + (max i j - min i j) = j := by omega
+    have e2 : min i j = i := by omega
+    rw [e1, e2]; ring
+  · have e1 : min i j + (max i j - min i j) = i := by omega
+    have e2 : min i j = j := by omega
+    rw [e1, e2]
+
+theorem ps_sum_map_zero {α} (l : List α) (f : α → Rat) (h : ∀ p ∈ l, f p = 0) : (l.map f).sum = 0 := by
+  induction l with
+  | nil => rfl
+  | cons a l ih =>
+    rw [List.map_cons, List.sum_cons, h a (by simp), ih (fun p hp => h p (by simp [hp]))]; simp
+
+/-- outside the band (offset > deg) the product vanishes -/
+theorem ps_btbSpec_band (deg : Nat) (rows : List Row) (ws : List Rat) (r c : Nat) (hr : deg < r) :
+    btbSpec deg rows ws r c = 0 := by
+  unfold btbSpec
+  apply ps_sum_map_zero
+  rintro ⟨row, w⟩ _
+  show w * row.at deg (c + r) * row.at deg c = 0
+  unfold Row.at
+  by_cases h1 : row.left ≤ c + deg ∧ c ≤ row.left
+  · rw [if_neg (show ¬ (row.left ≤ c + r + deg ∧ c + r ≤ row.left) by omega)]; ring
+  · rw [if_neg h1]; ring
+
+theorem ps_btb_fold_shape {deg nb : Nat} (L : List (Row × Rat × Rat)) (acc : List (List Rat) × List Rat)
+    (h1 : Shape (deg + 1) nb acc.1) :
+    Shape (deg + 1) nb (L.foldl (fun acc (r, (y, w)) => accRow deg acc.1 acc.2 r y w) acc).1 := by
+  induction L generalizing acc with
+  | nil => exact h1
+  | cons p L ih =>
+    obtain ⟨row, y, w⟩ := p
+    simp only [List.foldl_cons]
+    exact ih _ (accRow_shape acc.2 row y w h1)
+
+theorem ps_btb_shape (deg nb : Nat) (rows : List Row) (ys ws : List Rat) :
+    TblShape (btbBty deg nb rows ys ws).1 (deg + 1) nb :=
+  ps_btb_fold_shape (rows.zip (ys.zip ws)) _ (shape_init _ _)
+
+theorem ps_rowsLen_of_shape (a : List (List Rat)) (R n : Nat) (h : TblShape a R n) : RowsLen a n := by
+  intro r hr
+  obtain ⟨k, hk, rfl⟩ := List.getElem_of_mem hr
+  have := h.2 k (by rw [← h.1]; exact hk)
+  rwa [List.getD_eq_getElem?_getD, List.getElem?_eq_getElem hk] at this
 
 /-- **P-spline system**: the lower bands handed to the solver denote `B'WB + λ D'D`, and the right-hand
 side is `B'Wy`, for every degree, difference order (smaller or larger than the degree), knot count and weights -/
 theorem pspline_asm_den (deg nb d : Nat) (lam : Rat) (rows : List Row) (ys ws : List Rat) (h : RowsWf deg nb rows)
     (hy : ys.length = rows.length) (hw : ws.length = rows.length) (i j : Nat) (hi : i < nb) (hj : j < nb) :
-    denLower (asmPspline deg nb d lam rows ys ws).1 i j = docPspline deg nb d lam rows ws i j := by sorry
+    denLower (asmPspline deg nb d lam rows ys ws).1 i j = docPspline deg nb d lam rows ws i j := by
+  show denLower (addDiagonalsLower (btbBty deg nb rows ys ws).1 (scale lam (bandsQ nb d true)) nb) i j = _
+  have hs := ps_btb_shape deg nb rows ys ws
+  rw [addDiagonalsLower_den _ _ nb (ps_rowsLen_of_shape _ _ _ hs)
+    (ps_rowsLen_of_shape _ _ _ (shape_scale lam _ _ _ (shape_bandsQ_lower nb d))) i j hi hj]
+  unfold docPspline
+  congr 1
+  · by_cases hb : max i j - min i j ≤ deg
+    · exact btb_eq deg nb rows ys ws h hy hw _ _ hb (by omega)
+    · rw [denLower_eq, ent_oob_row _ _ _ (by rw [hs.1]; omega), ps_btbSpec_band deg rows ws _ _ (by omega)]
+  · rw [denLower_eq, ent_scale, ent_bandsQ_lower_eq nb d i j hi hj]
+
 theorem pspline_asm_rhs (deg nb d : Nat) (lam : Rat) (rows : List Row) (ys ws : List Rat) (h : RowsWf deg nb rows)
     (hy : ys.length = rows.length) (hw : ws.length = rows.length) (c : Nat) (hc : c < nb) :
-    (asmPspline deg nb d lam rows ys ws).2.getD c 0 = btySpec deg rows ys ws c := by sorry
+    (asmPspline deg nb d lam rows ys ws).2.getD c 0 = btySpec deg rows ys ws c :=
+  bty_eq deg nb rows ys ws h hy hw c hc
+
+/-- `_basis_midpoints` returns one point per basis function -/
+theorem basisMidpoints_length (knots : List Rat) (deg : Nat) :
+    (basisMidpoints knots deg).length = basisMidpointsCount knots.length deg := by
+  unfold basisMidpoints basisMidpointsCount
+  by_cases hd : deg % 2 = 1
+  · simp only [hd, if_true, List.length_drop, List.length_take]; omega
+  · simp only [hd, if_false, List.length_drop, List.length_take, List.length_zipWith]; omega
+
+/-- equally spaced knots `a + j·h`, `j < K` -/
+def apKnots (a h : Rat) (K : Nat) : List Rat := (List.range K).map fun (j : Nat) => a + (j : Rat) * h
+
+/-- on equally spaced knots (what `_spline_knots` builds for penalised splines) the i-th midpoint is the centre of the
+support `[t_i, t_{i+deg+1}]` of the i-th basis function, for odd and even degree alike -/
+theorem apKnots_getD (a h : Rat) (K j : Nat) (hj : j < K) : (apKnots a h K).getD j 0 = a + (j : Rat) * h := by
+  unfold apKnots
+  simp [List.getD_eq_getElem?_getD, List.getElem?_map, List.getElem?_range hj]
+
+theorem apKnots_getElem? (a h : Rat) (K j : Nat) (hj : j < K) : (apKnots a h K)[j]? = some (a + (j : Rat) * h) := by
+  unfold apKnots
+  simp [List.getElem?_map, List.getElem?_range hj]
+
+theorem apKnots_length (a h : Rat) (K : Nat) : (apKnots a h K).length = K := by simp [apKnots]
+
+theorem basisMidpoints_ap (a h : Rat) (K deg i : Nat) (hi : i + deg + 1 < K) :
+    (basisMidpoints (apKnots a h K) deg).getD i 0 = ((apKnots a h K).getD i 0 + (apKnots a h K).getD (i + deg + 1) 0) / 2 := by
+  rw [apKnots_getD a h K i (by omega), apKnots_getD a h K _ hi]
+  unfold basisMidpoints
+  have hdm := Nat.div_add_mod deg 2
+  by_cases hd : deg % 2 = 1
+  · simp only [hd, if_true, apKnots_length]
+    rw [List.getD_eq_getElem?_getD, List.getElem?_drop, List.getElem?_take_of_lt (by omega),
+      ← List.getD_eq_getElem?_getD, apKnots_getD a h K _ (by omega)]
+    have e : deg = 2 * (deg / 2) + 1 := by omega
+    generalize deg / 2 = q at e
+    subst e; push_cast; ring
+  · simp only [hd, if_false, apKnots_length, List.length_zipWith, List.length_drop]
+    rw [List.getD_eq_getElem?_getD, List.getElem?_drop, List.getElem?_take_of_lt (by omega),
+      List.getElem?_zipWith, List.getElem?_drop, apKnots_getElem? a h K _ (by omega),
+      apKnots_getElem? a h K _ (by omega)]
+    have e : deg = 2 * (deg / 2) := by omega
+    generalize deg / 2 = q at e
+    subst e
+    simp only [Option.getD_some]; push_cast; ring
+
+/-- the index search inside `npInterp` -/
+theorem npInterp_fold_inv (xs : List Rat) (t : Rat) (h0 : xs.getD 0 0 ≤ t) (m : Nat) :
+    (((List.range m).foldl (fun (acc j : Nat) => if xs.getD j 0 ≤ t then j else acc) 0 = 0) ∨
+      ((List.range m).foldl (fun (acc j : Nat) => if xs.getD j 0 ≤ t then j else acc) 0 < m)) ∧
+    xs.getD ((List.range m).foldl (fun (acc j : Nat) => if xs.getD j 0 ≤ t then j else acc) 0) 0 ≤ t ∧
+    ∀ k, k < m → xs.getD k 0 ≤ t → k ≤ (List.range m).foldl (fun (acc j : Nat) => if xs.getD j 0 ≤ t then j else acc) 0 := by
+  induction m with
+  | zero => exact ⟨Or.inl rfl, h0, fun k hk _ => by omega⟩
+  | succ m ih =>
+    rw [List.range_succ, List.foldl_append, List.foldl_cons, List.foldl_nil]
+    generalize (List.range m).foldl (fun (acc j : Nat) => if xs.getD j 0 ≤ t then j else acc) 0 = r at ih
+    obtain ⟨h1, h2, h3⟩ := ih
+    by_cases hm : xs.getD m 0 ≤ t
+    · rw [if_pos hm]
+      refine ⟨Or.inr (by omega), hm, fun k hk _ => by omega⟩
+    · rw [if_neg hm]
+      refine ⟨by omega, h2, fun k hk hkt => ?_⟩
+      by_cases hkm : k = m
+      · subst hkm; exact absurd hkt hm
+      · exact h3 k (by omega) hkt
+
+theorem pairwise_getD_lt (xs : List Rat) (hx : xs.Pairwise (· < ·)) (i j : Nat) (hij : i < j) (hj : j < xs.length) :
+    xs.getD i 0 < xs.getD j 0 := by
+  rw [List.getD_eq_getElem?_getD, List.getD_eq_getElem?_getD, List.getElem?_eq_getElem hj,
+    List.getElem?_eq_getElem (by omega : i < xs.length)]
+  exact List.pairwise_iff_getElem.mp hx i j (by omega) hj hij
+
+/-- the three branches of `npInterp` -/
+theorem npInterp_cases (xs vs : List Rat) (t : Rat) (hn : 0 < xs.length) :
+    (t ≤ xs.getD 0 0 ∧ npInterp xs vs t = vs.getD 0 0) ∨
+    (xs.getD 0 0 < t ∧ xs.getD (xs.length - 1) 0 ≤ t ∧ npInterp xs vs t = vs.getD (xs.length - 1) 0) ∨
+    (∃ r, r + 1 < xs.length ∧ xs.getD r 0 ≤ t ∧ t < xs.getD (r + 1) 0 ∧
+      npInterp xs vs t = vs.getD r 0 + (t - xs.getD r 0) * (vs.getD (r + 1) 0 - vs.getD r 0) / (xs.getD (r + 1) 0 - xs.getD r 0)) := by
+  unfold npInterp
+  simp only [show ¬ xs.length = 0 by omega, if_false]
+  by_cases h1 : t ≤ xs.getD 0 0
+  · left; exact ⟨h1, by rw [if_pos h1]⟩
+  · rw [if_neg h1]
+    have h1' : xs.getD 0 0 < t := lt_of_not_ge h1
+    by_cases h2 : xs.getD (xs.length - 1) 0 ≤ t
+    · right; left; exact ⟨h1', h2, by rw [if_pos h2]⟩
+    · rw [if_neg h2]
+      right; right
+      obtain ⟨ha, hb, hc⟩ := npInterp_fold_inv xs t (le_of_lt h1') xs.length
+      generalize (List.range xs.length).foldl (fun (acc j : Nat) => if xs.getD j 0 ≤ t then j else acc) 0 = r at ha hb hc
+      have hr : r + 1 < xs.length := by
+        by_cases hr : r = xs.length - 1
+        · subst hr; exact absurd hb h2
+        · omega
+      refine ⟨r, hr, hb, ?_, rfl⟩
+      by_contra hlt
+      have := hc (r + 1) hr (le_of_not_gt hlt)
+      omega
+
+theorem convex_bounds (lo hi v0 v1 x0 x1 t : Rat) (h0 : x0 ≤ t) (h1 : t < x1) (a0 : lo ≤ v0) (b0 : v0 ≤ hi) (a1 : lo ≤ v1) (b1 : v1 ≤ hi) :
+    lo ≤ v0 + (t - x0) * (v1 - v0) / (x1 - x0) ∧ v0 + (t - x0) * (v1 - v0) / (x1 - x0) ≤ hi := by
+  have hd : 0 < x1 - x0 := by linarith
+  have e : v0 + (t - x0) * (v1 - v0) / (x1 - x0) = ((x1 - t) * v0 + (t - x0) * v1) / (x1 - x0) := by
+    field_simp; ring
+  rw [e, le_div_iff₀ hd, div_le_iff₀ hd]
+  have p1 : 0 ≤ t - x0 := by linarith
+  have p2 : 0 ≤ x1 - t := by linarith
+  constructor
+  · nlinarith [mul_nonneg p2 (sub_nonneg.mpr a0), mul_nonneg p1 (sub_nonneg.mpr a1)]
+  · nlinarith [mul_nonneg p2 (sub_nonneg.mpr b0), mul_nonneg p1 (sub_nonneg.mpr b1)]
+
+theorem getD_mem_of_lt (vs : List Rat) (k : Nat) (hk : k < vs.length) : vs.getD k 0 ∈ vs := by
+  rw [List.getD_eq_getElem?_getD, List.getElem?_eq_getElem hk]; exact List.getElem_mem hk
+
+/-- `np.interp` reproduces the node values on strictly increasing abscissae -/
+theorem npInterp_node (xs vs : List Rat) (hx : xs.Pairwise (· < ·)) (hl : vs.length = xs.length) (j : Nat) (hj : j < xs.length) :
+    npInterp xs vs (xs.getD j 0) = vs.getD j 0 := by
+  have hn : 0 < xs.length := by omega
+  rcases npInterp_cases xs vs (xs.getD j 0) hn with ⟨h1, e⟩ | ⟨h0, h1, e⟩ | ⟨r, hr, h1, h2, e⟩
+  · rw [e]
+    by_cases hj0 : j = 0
+    · rw [hj0]
+    · exact absurd (pairwise_getD_lt xs hx 0 j (by omega) hj) (not_lt.mpr h1)
+  · rw [e]
+    by_cases hjn : j = xs.length - 1
+    · rw [hjn]
+    · exact absurd (pairwise_getD_lt xs hx j (xs.length - 1) (by omega) (by omega)) (not_lt.mpr h1)
+  · rw [e]
+    have hrj : r = j := by
+      by_contra hne
+      rcases Nat.lt_or_gt_of_ne hne with hlt | hgt
+      · by_cases hs : r + 1 = j
+        · rw [hs] at h2; exact lt_irrefl _ h2
+        · exact lt_irrefl _ (lt_trans h2 (pairwise_getD_lt xs hx (r + 1) j (by omega) hj))
+      · exact absurd (pairwise_getD_lt xs hx j r hgt (by omega)) (not_lt.mpr h1)
+    subst hrj
+    simp
+
+/-- interpolating a constant gives the constant (unit weights leave the penalty unscaled) -/
+theorem npInterp_const (xs : List Rat) (v t : Rat) (hx : xs.Pairwise (· < ·)) (hn : 0 < xs.length) :
+    npInterp xs (List.replicate xs.length v) t = v := by
+  have hg : ∀ k, k < xs.length → (List.replicate xs.length v).getD k 0 = v := by
+    intro k hk
+    simp [List.getD_eq_getElem?_getD, hk]
+  rcases npInterp_cases xs (List.replicate xs.length v) t hn with ⟨h1, e⟩ | ⟨h0, h1, e⟩ | ⟨r, hr, h1, h2, e⟩
+  · rw [e, hg 0 hn]
+  · rw [e, hg _ (by omega)]
+  · rw [e, hg r (by omega), hg (r + 1) hr]; simp
+
+/-- `np.interp` stays between the smallest and the largest value (so `0 ≤ w ≤ 1` gives `0 ≤ 1 − η w̃ ≤ 1` for `0 ≤ η ≤ 1`) -/
+theorem npInterp_bounds (xs vs : List Rat) (lo hi t : Rat) (hx : xs.Pairwise (· < ·)) (hl : vs.length = xs.length) (hn : 0 < xs.length)
+    (hb : ∀ v ∈ vs, lo ≤ v ∧ v ≤ hi) : lo ≤ npInterp xs vs t ∧ npInterp xs vs t ≤ hi := by
+  rcases npInterp_cases xs vs t hn with ⟨h1, e⟩ | ⟨h0, h1, e⟩ | ⟨r, hr, h1, h2, e⟩
+  · rw [e]; exact hb _ (getD_mem_of_lt vs 0 (by omega))
+  · rw [e]; exact hb _ (getD_mem_of_lt vs _ (by omega))
+  · rw [e]
+    have b0 := hb _ (getD_mem_of_lt vs r (by omega))
+    have b1 := hb _ (getD_mem_of_lt vs (r + 1) (by omega))
+    exact convex_bounds lo hi _ _ _ _ t h1 h2 b0.1 b0.2 b1.1 b1.2
 
 end PbVerif.Lemmas
